@@ -89,6 +89,13 @@ def ty_term(t, classnames):
 
 # ---------------------------------------------------------------- hook DSL -> Python source
 
+def _raise_stmt(mode):
+    """The ways user code refuses: an exception with a message, one without arguments, a failing assert, a KeyError."""
+    return {'msg': 'raise ValueError("refused by user code")', 'bare': 'raise ValueError', 'assert': 'assert False',
+            'key': 'raise KeyError(42)', 'custom': 'raise type("MyError", (Exception,), {})()',
+            'rec': 'raise yatiml.RecognitionError("refused")'}[mode]
+
+
 def _lit(v):
     if isinstance(v, float):
         if v != v:
@@ -301,7 +308,7 @@ class Model:
             body.append(f'        _verif_log.append(("strctor", {name!r}, type(self).__name__, s))')
             if bad[0] == 'failon':
                 body.append(f'        if s in {list(bad[1])!r}:')
-                body.append('            raise ValueError("string refused")')
+                body.append('            ' + _raise_stmt(bad[2] if len(bad) > 2 else 'msg'))
             body.append('        self._verif_str = s')
             if s.get('strbase') == 'UserString':
                 body.append('        UserString.__init__(self, s)')
@@ -322,10 +329,10 @@ class Model:
             body.append(f'        _verif_log.append(("init", {name!r}, type(self).__name__, _kw))')
             init = s.get('init', ('ok',))
             if init[0] == 'fail':
-                body.append('        raise ValueError("constructor refused")')
+                body.append('        ' + _raise_stmt(init[1] if len(init) > 1 else 'msg'))
             elif init[0] == 'failif':
                 body.append(f'        if {init[1]!r} in _kw and type(_kw[{init[1]!r}]) is type({_lit(init[2])}) and _kw[{init[1]!r}] == {_lit(init[2])}:')
-                body.append('            raise ValueError("constructor refused")')
+                body.append('            ' + _raise_stmt(init[3] if len(init) > 3 else 'msg'))
             body.append('        self._verif_kwargs = _kw')
             for n in names:
                 body.append(f'        self.{n} = {n}')
